@@ -201,7 +201,9 @@ def match_known(prop, obl_name, case, fail):
     for e in load_known().get('findings', []):
         if e.get('status', 'known') != 'known' or e['property'] != prop:
             continue
-        if 'obligation' in e and not fnmatch.fnmatch(obl_name, e['obligation']):
+        # the coverage-guided supplement '<name>-atheris' has the strategy and oracle of '<name>': same findings
+        base = obl_name[:-8] if obl_name.endswith('-atheris') else obl_name
+        if 'obligation' in e and not (fnmatch.fnmatch(obl_name, e['obligation']) or fnmatch.fnmatch(base, e['obligation'])):
             continue
         if 'solver' in e and not fnmatch.fnmatch(str(case.get('solver', '')), e['solver']):
             continue
